@@ -502,7 +502,8 @@ def make_obj(config, Xs):
 
 def xpattern(name, k):
     return {'p3': [0.3] * k, 'one': [1.0] * k, 'mix': [[1.0, 0.3, 0.5][i % 3] for i in range(k)], 'zero': [0.0] * k,
-            'nofeed': [0.3] * k}[name]      # 'nofeed': the reactants are absent from the feed, nothing reacts
+            'nofeed': [0.3] * k,            # 'nofeed': the reactants are absent from the feed, nothing reacts
+            'fpone': [1.0] * k}[name]       # 'fpone': X = 1 on a feed that is stoichiometric only up to floating-point rounding
 
 def tagmap_of(config):
     kind, items, tag, route = config
@@ -604,6 +605,8 @@ class Iso(System):
     def _cases(self, st):
         phases, Ts, xps = self._grid(st)
         cases = [(ph, T, xp) for ph in phases for T in Ts for xp in xps]
+        if st.config[0] == 'single':
+            cases += [(ph, T, 'fpone') for ph in phases for T in ((350.0,) if self.tier == 'quick' else Ts)]
         # the same stream defined on a RE-ORDERED property package (the reaction keeps its own `chemicals=`)
         for ph in phases:
             for T in ((350.0,) if self.tier == 'quick' else Ts):
@@ -626,6 +629,23 @@ class Iso(System):
         n0, phases, single = feed_for(st.config, ph)
         if xp == 'nofeed':
             for ri, r in items: n0[..., POS[r]] = 0.0
+        if xp == 'fpone':
+            # reactant 0.1 + 0.2 (= 0.30000000000000004), co-reactants need * 0.3: exhausted up to a rounding residue of either sign;
+            # every other chemical of the package present (in particular the one at index 0)
+            (ri, r), = items
+            d = MENU[ri][1]
+            tm_ = tagmap_of(st.config) or {}
+            def slot(ID):
+                if n0.ndim == 1: return (POS[ID],)
+                p = tm_.get(ID, rc.NAT_PHASE[ID])
+                if p not in phases: p = ('l' if 'l' in phases else None) if ID == 'Glucose' else phases[0]
+                return None if p is None else (phases.index(p), POS[ID])
+            for ID in IDS:
+                if n0[..., POS[ID]].sum() == 0 and not (ID == 'Glucose' and ph == 'g') and slot(ID) is not None: n0[slot(ID)] = 0.7
+            for k_, x in d.items():
+                if x < 0:
+                    n0[..., POS[k_]] = 0.0
+                    n0[slot(k_)] = (0.1 + 0.2) if k_ == r else abs(x) / abs(d[r]) * 0.3
         tk = ('S.g' if ph == 'g' else 'S.l') if tag == 'none' else 'M'
         if other_pkg: tk = {'S.g': 'S.gR', 'S.l': 'SR', 'M': 'MR'}[tk]
         tgt = Target(tk, n0, phases, T=T, P=P_REF)
@@ -726,6 +746,17 @@ class Adiabatic(Iso):
                 if self.tier == 'quick' and Q == 'default' and T != 350.0: continue
                 if ph.endswith('R') and Q in (0.0, 'default'): continue
                 acts.append((ph, T, xp, Q))
+        # heat duties so large that no outlet temperature exists in the feed's phase: the enthalpy setter has to move the stream to the
+        # other phase (gas feeds: heat removal; liquid feeds: heat input).  The balance is judged on the state the stream ends in.
+        kind, items, tag, route = st.config
+        if tag == 'none' and (self.tier != 'quick' or kind == 'single'):
+            for ph in ('g', 'l'):
+                if (ph == 'g' and has_glucose(items)): continue
+                for T in ((350.0,) if self.tier == 'quick' else (T_REF, 350.0, 450.0)):
+                    for Q in ((-2e6, -4e6, -8e6) if ph == 'g' else (2e6, 4e6, 8e6, 1.6e7)):
+                        for xp in (('p3',) if self.tier == 'quick' else ('p3', 'zero')):
+                            if self.tier != 'quick' and grid_class(st.config) == 'coarse' and xp == 'zero': continue
+                            acts.append((ph, T, xp, Q))
         return acts
 
     def step(self, st, a):
